@@ -142,6 +142,11 @@ def run_rules(ctx, F, A, X):
     check_option(ctx, F, A, X)
     # ---- list loop
     check_list(ctx, F, A)
+    # ---- values: "every integer value and sign, byte string, ... is preserved" -- the structural value rules of C12
+    from . import c12
+    ctx.rule("R-C12-*", "value exactness of TLF lengths, integers (right-aligned copy, sign fill, from_be_bytes), booleans and octet strings "
+                        "(the rules of C12, which are necessary conditions of C03 as well)")
+    c12.run_rules(ctx, F, A)
 
 
 def check_envelope_tlf(ctx, F, A, X, body):
